@@ -1152,7 +1152,8 @@ def shipped_mapping(ctx, W):
         steps_list = [steps, steps]
     out = []
     for (mol, auto, excl, out_mode, scale, form), st in zip(runs, steps_list):
-        auto_names = None if auto is None else [f for f in auto if os.path.isfile(os.path.join(d, f))]
+        auto_names = None if auto is None else [f for f in auto if os.path.isfile(os.path.join(d, f))] + \
+            ["DOT:" + x for t in mol for x in t]
         out += main_real_case(ctx, W, d, "system_bmimbf4_cg.gro", [list(t) for t in mol], auto_names, excl, out_mode,
                               scale, form, 11, st, {"kind": "shipped_mapping"}, dict(SHIPPED))
     return out
@@ -1197,7 +1198,29 @@ def corpus_descs():
            "auto": ["cg/MOLA.itp", "cg/M1.itp", "aa/MOLA.itp", "aa/MOLA.gro", "aa/M1.itp", "aa/M1.gro", "old/MOLA.itp",
                     "old/MOLA.gro", "ff/forcefield.itp", "notes.txt"],
            "known": [], "exclude": None, "geom_seed": 4, "profile": "corpus-subfolders"}
-    return [d11, f1, f3, sub]
+    # explicit species whose files are listed again under another spelling and as a copy (seeded C20-3 layout)
+    resp = {"species": [mola, m1], "in_system": ["MOLA", "M1"], "blocks": [["M1", 2], ["MOLA", 2]],
+            "files": [top("data/MOLA_CG.itp", "MOLA", "cg"), top("data/MOLA_AA.itp", "MOLA", "aa"),
+                      coor("data/MOLA_AA.gro", "MOLA"), top("data/M1_CG.itp", "M1", "cg"), top("data/M1_AA.itp", "M1", "aa"),
+                      coor("data/M1_AA.gro", "M1"), top("data/MOLA_CG_copy.itp", "MOLA", "cg"),
+                      {"name": "data/system.gro", "kind": "ref"}],
+            "ref": "data/system.gro",
+            "auto": ["DOT:data/MOLA_CG.itp", "DOT:data/MOLA_AA.itp", "DOT:data/MOLA_AA.gro", "DOT:data/M1_CG.itp",
+                     "DOT:data/M1_AA.itp", "DOT:data/M1_AA.gro", "DOT:data/system.gro", "data/MOLA_CG_copy.itp"],
+            "known": [["data/MOLA_CG.itp", "data/MOLA_AA.gro", "data/MOLA_AA.itp"]], "exclude": None, "geom_seed": 5,
+            "profile": "corpus-respelled-explicit"}
+    # near-miss distractor sorting before the genuine start topology (seeded C20-4 layout: BF4_CG.alt.itp, molecule
+    # TFB, bead B1 instead of Q01)
+    tfb = {"name": "TFB", "cg": [["M1", ["B1"]]], "aa": [["M1", ["B1"]]], "same_sig": True}
+    nm = {"species": [mola, m1, tfb], "in_system": ["MOLA", "M1"], "blocks": [["M1", 2], ["MOLA", 2]],
+          "files": [top("MOLA_CG.itp", "MOLA", "cg"), top("MOLA_AA.itp", "MOLA", "aa"), coor("MOLA_AA.gro", "MOLA"),
+                    top("M1_CG.itp", "M1", "cg"), top("M1_AA.itp", "M1", "aa"), coor("M1_AA.gro", "M1"),
+                    top("M1_CG.alt.itp", "TFB", "cg"), {"name": "system.gro", "kind": "ref"}],
+          "ref": "system.gro",
+          "auto": ["M1_AA.gro", "M1_AA.itp", "M1_CG.alt.itp", "M1_CG.itp", "MOLA_AA.gro", "MOLA_AA.itp", "MOLA_CG.itp",
+                   "system.gro"],
+          "known": [], "exclude": None, "geom_seed": 6, "profile": "corpus-nearmiss"}
+    return [d11, f1, f3, sub, resp, nm]
 
 
 def hash_jobs(items):
@@ -1277,7 +1300,6 @@ def correspondence(ctx):
     combos = combos[0::2] + combos[1::2]          # interleave so that any prefix mixes the modes
     for k in range(nreal):
         desc = make_descriptor(rs, "full" if k % 3 else "samesig", for_mapping=True)
-        d = materialize(desc, os.path.join(root(), "m%d" % k))
         triples = {}
         for sp in desc["species"]:
             if sp["name"] in desc["in_system"]:
@@ -1293,11 +1315,11 @@ def correspondence(ctx):
             auto, excl = None, None
         elif mode == 1:                     # --auto with --exclude
             mol = []
-            auto = desc["auto"]
+            auto = list(desc["auto"])
             excl = [names[int(rs.randint(0, len(names)))]] if len(names) > 1 else ["SOL"]
         else:                               # mixed
             mol = [list(triples[names[0]])]
-            auto = desc["auto"]
+            auto = list(desc["auto"])
             excl = None
         if not mol and auto is None:
             continue
@@ -1305,6 +1327,16 @@ def correspondence(ctx):
         for sp in desc["species"]:
             if sp["same_sig"] and sp["name"] in triples and auto is not None and list(triples[sp["name"]]) not in mol:
                 mol.append(list(triples[sp["name"]]))
+        # the explicit species' files are listed again under another spelling, and its start topology as a copy: the
+        # species must not be discovered a second time (only the pre-loaded start system prevents it)
+        if auto is not None and mol:
+            for t in mol:
+                auto += ["DOT:" + x for x in t]
+            if k % 2 == 0:
+                desc["files"].append({"name": "copy_of_" + mol[0][0], "kind": "top",
+                                      "mol": [n for n in names if triples[n][0] == mol[0][0]][0], "res": "cg"})
+                auto.append("copy_of_" + mol[0][0])
+        d = materialize(desc, os.path.join(root(), "m%d" % k))
         scale = [None, 0.5, 0.8, 1.0][int(rs.randint(0, 4))]
         form, out_mode = combos[k % len(combos)]      # every (input path form, output mode) pair at least once
         main_real_case(ctx, W, d, desc["ref"], mol, auto, excl, out_mode, scale,
